@@ -198,7 +198,7 @@ CHECKS['C14'] = dict(
     rule='decoder component on exact-size guard-page input and output buffers vs a byte-at-a-time reference LZ4 block decoder: (a) ALL blocks of <=2 sequences + final literals over literal lengths {0,1,7,8,14,15,16,270} x match lengths {4,5,18,19,20,274} x offsets {1,2,3,7,8,9,produced,produced+1,0} '
          'x announced size {exact,-1,+1,+8}, and all 3-sequence blocks over reduced sets; (long_runs) literal-only blocks of every length 0..800, and one- and two-sequence blocks with literal / match lengths around one, two and three 255-extension bytes x offsets {1,2,7,8,16,produced} (overlapping copies, a second sequence with zero literals); (b) every truncation of valid seed blocks, and valid seed blocks with 1..3 bytes appended (first byte all 256 values, the others over 6 boundary values: incomplete trailing sequences); (c) every single-byte deviation (all 255 values; thorough: x all token bytes) of valid seed blocks <=48 bytes; (d) ALL byte strings of length 13 (thorough 14) over {00,10,1F,F0}. In (b)-(d) a block the reference rejects is presented with the full size AND with every size at which its output would already be complete after some sequence literal run or match (the sizes at which a decoder that stops early reports success). '
          'Oracle: no fault, return in {-1} u [0,size]; size returned == announced size only if the reference decodes to exactly those bytes; valid shrinking encodings obeying the end-of-block rules must be accepted. '
-         '(table_wrapper) the [version][scheme:5|announced size:27] header of the compressed Silf and Glat tables of the three compressed S-full variants (thorough + Awami compressed): ALL 32 scheme values x 32 boundary sizes (0..5, 7..9, 12, 13, 16, compressed length +-1/-8/-9, true size +-1/+-4, half, double, powers of two, 27-bit maximum), loaded with options 0 and 7 under ASan: no fault, unmodified header loads and reports the uncompressed face, borrowed tables returned. '
+         '(table_wrapper) the [version][scheme:5|announced size:27] header of the compressed Silf and Glat tables of the three compressed S-full variants (thorough + Awami compressed): ALL 32 scheme values x 32 boundary sizes (0..5, 7..9, 12, 13, 16, compressed length +-1/-8/-9, true size +-1/+-4, half, double, powers of two, 27-bit maximum), loaded with options 0 and 7 under ASan: no fault, unmodified header loads and reports the uncompressed face, every OTHER announced size under the same scheme is refused (the block decodes to the original size, not to the announced one), borrowed tables returned. '
          'Transparency: S-full with Silf / Glat / both compressed under EVERY encoding that differs from the greedy parse in 1 decision (thorough: 2 nearby decisions) out of {literal instead of match, shortest match, farthest offset, 19-byte match (length-extension byte)}: plus, for each table, the valid blocks that are exactly 1..12 bytes shorter than the data (last matches shortened or dropped): must load (options 0 and 7) and give the same face dump and the same segments for all strings <=2 (thorough <=3) over 9 characters x dir 0/1 as the uncompressed font; '
          'shipped pair Awami_test / Awami_compressed_test on the whole awami corpus x dir {1,3} x options {0,7}',
     state_meaning='one compressed block (or one compressed font); transitions = decoder runs compared with the reference decoder / shapings compared with the uncompressed font',
